@@ -27,9 +27,92 @@ def cases(tier, r):
   yield from _cases(tier, r)
   for _ in range(40 if tier == 'quick' else 600):
     yield 'partials', {'partials': True, 'seed': r.getrandbits(48)}
+  for _ in range(60 if tier == 'quick' else 900):
+    yield 'factory_positional', {'partials': True, 'factory_positional': True, 'seed': r.getrandbits(48)}
   for n in ((70000,) if tier == 'quick' else (70000, 140000, 300000)):
     yield 'big', {'big': n, 'seed': r.getrandbits(48)}
   yield from _delegated_cases(tier, r)
+
+
+class _Layer:
+  def __init__(self, name):
+    targets.LOG.append(('layer', name))
+    self.name = name
+
+
+def _stack(*layers):
+  return list(layers)
+
+
+def _stack_kw(*layers, tail=None):
+  return list(layers) + [tail]
+
+
+def _identity(x=None, /):
+  return x
+
+
+def _pair(x=None, y=None, /, z=None):
+  return [x, y, z]
+
+
+def _train(stack=None, probe=None, shared=None, extra=None):
+  return {'stack': stack, 'probe': probe, 'shared': shared, 'extra': extra}
+
+
+def run_factory_positional(case):
+  """Buildables handed POSITIONALLY (variadic / positional-only parameters) to ArgFactory and
+  Partial nodes: every reference to one Buildable instance is the one object built for it, each
+  instance is invoked once - at build time, not when the resulting partial is called."""
+  import random
+  r = random.Random(case['seed'])
+  leaves = [fdl.Config(_Layer, f's{i}') for i in range(r.randint(1, 3))]
+  pick = lambda: r.randrange(len(leaves))
+  wrap = r.choice([fdl.ArgFactory, fdl.ArgFactory, fdl.Partial])
+  refs = {'stack': [pick() for _ in range(r.randint(1, 4))], 'probe': [pick()], 'extra': [pick(), pick()],
+          'shared': [pick()]}
+  with_kw = r.random() < 0.4
+  stack_node = (wrap(_stack_kw, *[leaves[i] for i in refs['stack']], tail=leaves[refs['stack'][0]])
+                if with_kw else wrap(_stack, *[leaves[i] for i in refs['stack']]))
+  probe_node = wrap(_identity, leaves[refs['probe'][0]])
+  extra_node = wrap(_pair, leaves[refs['extra'][0]], leaves[refs['extra'][1]])
+  root = fdl.Partial(_train, stack=stack_node, probe=probe_node, shared=leaves[refs['shared'][0]],
+                     extra=extra_node)
+  del targets.LOG[:]
+  problems = []
+  fn = fdl.build(root)
+  at_build = [x[1] for x in targets.LOG if x[0] == 'layer']
+  reachable = sorted({f's{i}' for v in refs.values() for i in v})
+  if sorted(at_build) != reachable:
+    problems.append(f'invoked during build: {sorted(at_build)}; distinct reachable Buildable instances: {reachable}')
+  outs = [fn(), fn()]
+  after = [x[1] for x in targets.LOG if x[0] == 'layer']
+  if len(after) != len(at_build):
+    problems.append(f'Buildables were invoked again when the built partial was called: {after}')
+  built = {}
+
+  def see(label, i, obj):
+    if not isinstance(obj, _Layer) or obj.name != f's{i}':
+      problems.append(f'{label}: reference to Buildable s{i} received {obj!r:.60}')
+    elif built.setdefault(i, obj) is not obj:
+      problems.append(f'{label}: a second object was built for Buildable instance s{i}')
+  for n, out in enumerate(outs):
+    def val(x):
+      return x() if wrap is fdl.Partial and callable(x) and not isinstance(x, _Layer) else x
+    st, pr, ex = val(out['stack']), val(out['probe']), val(out['extra'])
+    if not isinstance(st, list) or len(st) != len(refs['stack']) + (1 if with_kw else 0):
+      problems.append(f'call {n}: stack received {st!r:.80}')
+    else:
+      for i, o in zip(refs['stack'] + ([refs['stack'][0]] if with_kw else []), st):
+        see(f'call {n} stack', i, o)
+    see(f'call {n} probe', refs['probe'][0], pr)
+    if not isinstance(ex, list) or len(ex) != 3:
+      problems.append(f'call {n}: extra received {ex!r:.80}')
+    else:
+      see(f'call {n} extra[0]', refs['extra'][0], ex[0])
+      see(f'call {n} extra[1]', refs['extra'][1], ex[1])
+    see(f'call {n} shared', refs['shared'][0], out['shared'])
+  return {'partials': True, 'problems': problems[:4], 'n': len(reachable)}
 
 
 def run_partials(case):
@@ -129,6 +212,8 @@ def run_big(case):
 def execute(case):
   if case.get('big'):
     return run_big(case), None
+  if case.get('factory_positional'):
+    return run_factory_positional(case), None
   if case.get('partials'):
     return run_partials(case), None
   if case.get('delegate'):
